@@ -138,6 +138,20 @@ ASSUME L(<<"sign", "message", "--", "f">>, MnEnv) = ""
 ASSUME L(<<"sign">>, MnEnv) = "subcommand_missing"
 ASSUME L(<<"hash">>, NoEnv) = "subcommand_missing"
 ASSUME L(<<>>, NoEnv) = "subcommand_missing"
+\* requests for text: wherever --help stands before the "--" (and not in the place of an option's value) the line asks for help
+ASSUME L(<<"address", "--help">>, NoEnv) = "help_requested"
+ASSUME L(<<"-h">>, NoEnv) = "help_requested"
+ASSUME L(<<"sign", "-h">>, NoEnv) = "help_requested"
+ASSUME L(<<"sign", "help">>, MnEnv) = "help_requested"
+ASSUME L(<<"help", "sign">>, NoEnv) = "help_requested"
+ASSUME L(<<"hash", "data", "--help">>, NoEnv) = "help_requested"
+ASSUME L(<<"hash", "data", "f", "--help">>, NoEnv) = "help_requested"
+ASSUME L(<<"hash", "data", "--", "--help">>, NoEnv) = ""
+ASSUME L(<<"hex", "encode", "help">>, NoEnv) = ""
+ASSUME L(<<"--version">>, NoEnv) = "version_requested"
+ASSUME L(<<"-V">>, NoEnv) = "version_requested"
+ASSUME L(<<"address", "--version">>, MnEnv) = "unknown_option"
+ASSUME L(<<"new", "--help">>, NoEnv) = "help_requested"
 \* `new`: rendering and parsing are inverse in every style and both orders; the vanity selectors conflict
 NewBase == {[length |-> l, prefix |-> p, vpassword |-> w, vindex |-> ix, vpath |-> "", threads |-> j] :
               l \in {"", "24"}, p \in {"", "0xAb"}, w \in {"", "pass word", "a=b"}, ix \in {"", "3"}, j \in {"", "0", "2"}}
